@@ -6,8 +6,16 @@ import numpy as np
 import translate_hc
 from common import LEAN, REPO, R, Ro, Cxo, fl
 
-LEAN_MODULES = ["PyomaVerif.Props.C09", "PyomaVerif.Mutants.C09"]
+LEAN_MODULES = ["PyomaVerif.Props.C09", "PyomaVerif.Mutants.C09", "PyomaVerif.Props.C09C18"]
 THEOREMS = [
+    # composition C09 o C18: the kept poles satisfy the criteria for the library's own MPC/MPD definitions
+    "PV.C09C18.kept_iff_of_check",
+    "PV.C09C18.C09_kept_mpc",
+    "PV.C09C18.C09_kept_mpd",
+    "PV.C09C18.C09_kept_damp",
+    "PV.C09C18.C09_kept_converse",
+    "PV.C09C18.C09_kept_iff_pLSCF",
+    "PV.C09C18.enabled_iff",
     "PV.Hc.arun_sound",
     "PV.C09.check_sound",
     "PV.C09.denoteTbl_iff",
